@@ -267,11 +267,15 @@ def fnode_from_wire(env, s):
 # cases
 # ------------------------------------------------------------------------------------------------
 class Case:
-    __slots__ = ("f", "subs", "interps", "ms", "env_ms", "kind", "foreign")
+    __slots__ = ("f", "subs", "interps", "ms", "env_ms", "kind", "foreign", "route", "seq")
 
-    def __init__(self, f, subs, interps, ms, env_ms, kind, foreign=()):
+    def __init__(self, f, subs, interps, ms, env_ms, kind, foreign=(), route=None):
         self.f, self.subs, self.interps, self.ms, self.env_ms, self.kind = f, subs, interps, ms, env_ms, kind
         self.foreign = foreign
+        # None: a fresh substituter object; "env": the environment's long-lived env.substituter;
+        # "fnode": FNode.substitute (which is env.substituter of the current environment)
+        self.route = route
+        self.seq = None       # id of the call sequence the case belongs to
 
 
 def enc_case(c, mgr, verb="subst"):
@@ -350,8 +354,15 @@ def run_impl(env, c, via_fnode=False):
             interps = {}
             for k, (formals, body) in c.interps.items():
                 interps[k] = FunctionInterpretation(formals, body, allow_free_vars=True)
-        if via_fnode:
-            r = c.f.substitute(c.subs, interpretations=interps)
+        if via_fnode or c.route == "fnode":
+            import pysmt.environment
+            pysmt.environment.push_env(env)
+            try:
+                r = c.f.substitute(c.subs, interpretations=interps)
+            finally:
+                pysmt.environment.pop_env()
+        elif c.route == "env":
+            r = env.substituter.substitute(c.f, c.subs, interpretations=interps)
         else:
             cls = MSSubstituter if c.ms else MGSubstituter
             r = cls(env).substitute(c.f, c.subs, interpretations=interps)
@@ -735,6 +746,82 @@ def run(ctx):
         subs = g.symbol_map(f)
         for ms in (False, True):
             cases.append((Case(f, dict(subs), {}, ms, env_ms, "symbols"), "sa"))
+    # directed: call SEQUENCES on the environment's long-lived substituter: the same (or an overlapping)
+    # formula with interpretation I1 of f, then I2 (another body), then I1 again — each call must give
+    # the instantiation of its own interpretation
+    for i in range(30 if quick else 400):
+        env_ms = rng.random() < 0.3
+        g = gens[env_ms]
+        m = g.mgr
+        fs = rng.choice(g.uni.funs)
+        ft = fs.symbol_type()
+        formals = [m.Symbol(formal_name(j, t), t) for j, t in enumerate(ft.param_types)]
+        bodies = []
+        for _ in range(12):
+            b = g.body(ft.return_type, formals, closed=rng.random() < 0.8)
+            if b not in bodies:
+                bodies.append(b)
+            if len(bodies) == 2:
+                break
+        if len(bodies) < 2:
+            c0 = g.fg_small.const(ft.return_type)
+            if c0 is None or c0 in bodies:
+                continue
+            bodies.append(c0)
+        rt = ft.return_type
+
+        def app_formula():
+            app = m.Function(fs, [g.fg_small.gen(t, 1) for t in ft.param_types])
+            atom = app if rt.is_bool_type() else m.Equals(app, g.fg_small.gen(rt, 1))
+            return atom
+        a1 = app_formula()
+        f1 = m.And(a1, g.fg_small.gen(BOOL, 2)) if rng.random() < 0.5 else m.Or(m.Not(a1), g.fg_small.gen(BOOL, 1))
+        f2 = f1 if rng.random() < 0.5 else m.Implies(app_formula(), a1)
+        seq = [(f1, 0), (f2, 1), (f1, 0), (f2, 1)] if rng.random() < 0.5 else [(f1, 0), (f1, 1), (f2, 0)]
+        for (ff, bi) in seq:
+            cs = Case(ff, {}, {fs: (formals, bodies[bi])}, env_ms, env_ms, "interp+call-sequence",
+                      route=rng.choice(["env", "fnode"]))
+            cs.seq = i
+            cases.append((cs, "k"))
+    # directed: a quantifier that shadows a key and whose WHOLE body is a sub-DAG shared with a free
+    # occurrence in another argument of a common ancestor (both orders, quantifier 1-3 levels below)
+    for i in range(60 if quick else 800):
+        env_ms = rng.random() < 0.25
+        g = gens[env_ms]
+        m = g.mgr
+        v = rng.choice(g.uni.qvars)
+        vt = v.symbol_type()
+        occ = v if vt.is_bool_type() else m.Equals(v, g.fg_small.gen(vt, 1))
+        other = g.fg_small.gen(BOOL, 1)
+        B = rng.choice([m.Iff, m.And, m.Or, m.Implies])(occ, other)
+        if rng.random() < 0.3:
+            B = m.Not(B)
+        vs = [v] if rng.random() < 0.7 else [v, rng.choice([q_ for q_ in g.uni.qvars if q_ is not v])]
+        W = (m.ForAll if rng.random() < 0.5 else m.Exists)(vs, B)
+        depth = rng.choice([1, 2, 2, 3])
+        for _ in range(depth - 1):
+            sib = g.fg_small.gen(BOOL, 1)
+            k = rng.random()
+            W = m.Or(sib, W) if k < 0.3 else m.And(W, sib) if k < 0.55 else m.Not(W) if k < 0.7 else \
+                m.Implies(sib, W) if k < 0.85 else m.Ite(sib, W, g.fg_small.gen(BOOL, 1))
+        freeB = B if rng.random() < 0.7 else m.Not(B)
+        args = [W, freeB] if rng.random() < 0.6 else [freeB, W]
+        if rng.random() < 0.3:
+            args.insert(rng.randrange(len(args) + 1), g.fg_small.gen(BOOL, 1))
+        f = rng.choice([m.And, m.Or])(args) if len(args) > 2 or rng.random() < 0.6 else \
+            rng.choice([m.Iff, m.Implies])(args[0], args[1])
+        if f is B or not f.args():
+            continue
+        subs = {v: g.value_for(vt)}
+        kinds = "symbols+shared-quantifier-body"
+        tagsel = ["k", "sa"]
+        if rng.random() < 0.35:
+            subs[occ if occ is not v else B] = g.value_for(BOOL)
+            kinds = "shared-quantifier-body+mentions-bound"
+            tagsel = ["k"]
+        for ms in (False, True):
+            for tg in tagsel:
+                cases.append((Case(f, dict(subs), {}, ms, env_ms, kinds), tg))
     # directed: interpretations whose formal parameters are symbols of the formula and whose actual
     # arguments mention the *other* formal parameters (the instantiation is simultaneous)
     for i in range(40 if quick else 500):
@@ -810,6 +897,7 @@ def run(ctx):
 
     # ---------------------------------------------------------------- implementation + spec (S b, c)
     records = []
+    seq_prefix = {}
     for (c, tag) in cases:
         env = envs[c.env_ms]
         mgr = env.formula_manager
@@ -831,6 +919,11 @@ def run(ctx):
                                    semantic.readable(b, 120)) for k, (fm, b) in c.interps.items()],
               "request": line,
               "impl": semantic.readable(out[1]) if out[0] == "ok" else out[1] + " :: " + repr(out[2])[:200]}
+        if c.seq is not None:
+            pref = seq_prefix.setdefault((c.env_ms, c.seq), [])
+            rd["route"] = c.route
+            rd["earlier_calls_on_the_same_environment"] = list(pref)
+            pref.append([c.route, line])
         rec["rd"] = rd
         ctx.count("outcome_" + ("ok" if out[0] == "ok" else " ".join(out[1].split()[:2])))
         nontriv = line if (out[0] == "err" or out[1] is not c.f) else None
@@ -1113,6 +1206,15 @@ def replay(ctx, rep):
     env_ms = line.split()[2] == "envms"
     env = MSEnvironment() if env_ms else Environment()
     c = decode_case(env, line)
+    for (route, l0) in r.get("earlier_calls_on_the_same_environment", []):
+        c0 = decode_case(env, l0)
+        c0.route = route
+        o0 = run_impl(env, c0)
+        print("earlier call (%s): %s  with %s  ->  %s" % (
+            route, semantic.readable(c0.f, 120),
+            [(str(k), semantic.readable(b, 80)) for k, (fm, b) in c0.interps.items()],
+            semantic.readable(o0[1], 120) if o0[0] == "ok" else o0[1]))
+    c.route = r.get("route")
     out = run_impl(env, c)
     print("formula :", semantic.readable(c.f))
     print("subs    :", [(semantic.readable(k, 100), semantic.readable(v, 100)) for k, v in c.subs.items()])
